@@ -21,6 +21,7 @@
 #include <policy/policy.h>
 #include <util/time.h>
 
+#include <filesystem>
 #include <sys/wait.h>
 
 using namespace ck;
@@ -233,8 +234,19 @@ struct World {
     std::unique_ptr<Node> n;
     RefLedger L;
     Universe U;
+    std::string tmpdir;
+    ~World()
+    {
+        n.reset();
+        if (!tmpdir.empty()) { std::error_code ec; std::filesystem::remove_all(tmpdir, ec); }
+    }
     std::string Setup(const Group& g, int64_t max_pool_bytes)
     {
+        // Every node process needs its own TMPDIR: the temp-datadir name generator of BasicTestingSetup was seeded in
+        // the common ancestor, so sibling processes would otherwise pick the same directory.
+        tmpdir = vx::scratch_dir() + "/C29-" + std::to_string(getpid());
+        mkdir(tmpdir.c_str(), 0755);
+        setenv("TMPDIR", tmpdir.c_str(), 1);
         NodeOpts o;
         if (max_pool_bytes > 0) o.mempool_tweak = [max_pool_bytes](CTxMemPool::Options& mo) { mo.max_size_bytes = max_pool_bytes; mo.limits.cluster_size_vbytes = 1000; };
         n = std::make_unique<Node>(o);
@@ -369,7 +381,7 @@ static std::string run_case(World& w, const Group& g, const std::vector<int>& se
 }
 
 // One process per group; inside, one fork()ed process per sequence. Writes a summary to fd `out`.
-static void group_main(const Group& g, int64_t max_pool_bytes, int maxlen, int out)
+static void group_main(const Group& g, int64_t max_pool_bytes, int maxlen, const std::vector<int>& extra, int out)
 {
     World w;
     FILE* f = fdopen(out, "w");
@@ -379,7 +391,7 @@ static void group_main(const Group& g, int64_t max_pool_bytes, int maxlen, int o
     std::set<std::string> sigs, vkeys;
     bool incomplete = false;
     std::vector<int> idx;
-    std::function<void()> rec = [&] {
+    std::function<void()> rec_leaf = [&] {
         if (!idx.empty() && !incomplete) {
             if (vx::deadline_reached()) { incomplete = true; return; }
             int pfd[2];
@@ -415,14 +427,23 @@ static void group_main(const Group& g, int64_t max_pool_bytes, int maxlen, int o
                 nviol++;
             } else sigs.insert(got.substr(3, got.size() - 4));
         }
-        if ((int)idx.size() == maxlen) return;
-        for (int i = 0; i < NREAL; i++) { idx.push_back(i); rec(); idx.pop_back(); }
+    };
+    std::function<void()> rec = [&] {
+        rec_leaf();
+        // full universe up to maxlen; one more level over the sub-universe `extra` (only sequences entirely inside it)
+        if ((int)idx.size() < maxlen) { for (int i = 0; i < NREAL; i++) { idx.push_back(i); rec(); idx.pop_back(); } }
+        else if ((int)idx.size() == maxlen && !extra.empty()) {
+            bool inside = true;
+            for (int i : idx) inside &= std::find(extra.begin(), extra.end(), i) != extra.end();
+            if (!inside) return;
+            for (int i : extra) { idx.push_back(i); rec_leaf(); idx.pop_back(); }
+        }
     };
     rec();
     for (auto& s : sigs) fprintf(f, "G\t%s\n", s.c_str());
     fprintf(f, "S\t%" PRIu64 "\t%" PRIu64 "\t%d\n", ncases, nviol, incomplete ? 1 : 0);
     fclose(f);
-    w.n.reset();
+    w.~World();
     _exit(0);
 }
 
@@ -439,7 +460,7 @@ static void calibrate_main(int out)
     size_t u1 = w.n->pool().DynamicMemoryUsage();
     fprintf(f, "C\t%zu\t%zu\n", u0, u1);
     fclose(f);
-    w.n.reset();
+    w.~World();
     _exit(0);
 }
 
@@ -488,7 +509,6 @@ int main(int argc, char** argv)
     groups.push_back({EMPTY, 0, 1});
     groups.push_back({PARENT, 1, 1});
     if (big) { groups.push_back({TWIN, 0, 1}); groups.push_back({FULL_RICH, 1, 1}); }
-    const int maxlen_main = big ? 5 : 4;
     struct Running { pid_t pid; int fd; size_t gi; };
     std::vector<Running> running;
     size_t next = 0;
@@ -542,10 +562,13 @@ int main(int argc, char** argv)
                 close(pfd[0]);
                 for (auto& r : running) close(r.fd);
                 const Group& g = groups[next];
-                // quick tier: the long sequences only for the states where eviction / twins / CPFP matter
-                int maxlen = maxlen_main;
-                if (!big && (g.state == CONFLICT || g.state == FULL_CHEAP || g.test_accept)) maxlen = 3;
-                group_main(g, (g.state == FULL_CHEAP || g.state == FULL_RICH) ? max_pool : 0, maxlen, pfd[1]);
+                // quick: every sequence of length <= 3, plus length 4 over {P1,P2,P3,CH} where eviction / CPFP matter;
+                // thorough: every sequence of length <= 4, plus length 5 over {P1,P2,P3,CH,T}
+                int maxlen = big ? 4 : 3;
+                std::vector<int> extra;
+                if (big) extra = {P1, P2, P3, CH, T};
+                else if (!g.test_accept && (g.state == EMPTY || g.state == FULL_RICH)) extra = {P1, P2, P3, CH};
+                group_main(g, (g.state == FULL_CHEAP || g.state == FULL_RICH) ? max_pool : 0, maxlen, extra, pfd[1]);
             }
             close(pfd[1]);
             running.push_back({pid, pfd[0], next});
@@ -572,7 +595,7 @@ int main(int argc, char** argv)
     E.set_str("outcome_classes_seen", flags);
     E.exhaustive = !incomplete;
     E.rule = "(a) every sequence of length 1.." + u(big ? 5 : 4) + " over 7 transactions (P1,P2,P3(P1),CH(P1,P2,P3),X conflicts with P2,T twin of P1,Z no inputs) through the 5 context-free predicates vs reference predicates, "
-             "count 24..27 and weight 403999..404004 edges; (b) every sequence of length 1.." + u(maxlen_main) + " (quick: 1..3 for conflict/full-cheap/test_accept groups) over the 6 real transactions x pool state x fee profile x submit/test_accept "
+             "count 24..27 and weight 403999..404004 edges; (b) every sequence of length 1.." + u(big ? 4 : 3) + " over the 6 real transactions plus every sequence of length " + u(big ? 5 : 4) + (big ? " over {P1,P2,P3,CH,T}" : " over {P1,P2,P3,CH} (empty and full-rich pools)") + " x pool state x fee profile x submit/test_accept "
              "through ProcessNewPackage on a regtest node, one forked process per case. distinct = predicate verdict classes + distinct (state, profile, well-formedness class, package verdict, per-tx result/membership) signatures";
     E.assume("the universe is one fixed dependency DAG (one child with three parents, one parent depending on another, one conflict pair, one same-txid twin); packages over other topologies (grandparents beyond one level, 25-transaction packages through ProcessNewPackage) are not enumerated");
     E.sample("signatures: " + flags.substr(0, 300));
